@@ -24,6 +24,9 @@ T_C03_NoLostWake == (StepDone("await_started") \/ StepDone("stress")) => obs.ste
 \* C04: with nobody saturated k connections spread evenly over the workers
 T_C04_EvenSpread == (StepDone("await_started") /\ obs.limit >= 8) =>
                        obs.maxLivePerWorker * obs.workers <= obs.nstarted + obs.workers - 1
+\* C04: after real-thread races (stress phase) every worker still takes its turn: workers x limit held connections all
+\* start (a worker whose release notification was lost is skipped for good)
+T_C04_EveryWorkerTakesItsTurn == (StepDone("await_started") \/ StepDone("stress")) => obs.stepOk
 \* C05: nothing starts while paused; connects succeed (UDS path present); everything waiting is served after resume
 T_C05_PauseResume == (StepDone("quiet") \/ StepDone("connect") \/ StepDone("await_started") \/ StepDone("stress")) => obs.stepOk
 \* C08: after a worker died service continues and a replacement instance of the service is created
